@@ -91,3 +91,100 @@ func init() {
 		return
 	}
 }
+
+// csmapMutators reports functions that call Store/StoreIf/Delete on a
+// ConcurrentSwissMap whose type name matches (e.g. "uint16_ptr.models.Offset").
+func csmapMutators(eng *Engine, typeSuffix string, allowed map[string]bool) (viol []string, n int) {
+	for _, f := range eng.allRepoFuncs() {
+		for _, b := range f.Blocks {
+			for _, in := range b.Instrs {
+				n++
+				var cc *ssa.CallCommon
+				switch v := in.(type) {
+				case *ssa.Call:
+					cc = &v.Call
+				case *ssa.Go:
+					cc = &v.Call
+				case *ssa.Defer:
+					cc = &v.Call
+				default:
+					continue
+				}
+				callee, ok := cc.Value.(*ssa.Function)
+				if !ok || cc.IsInvoke() {
+					continue
+				}
+				k := funcKey(callee)
+				if k != "wrapper.(*ConcurrentSwissMap).Store" && k != "wrapper.(*ConcurrentSwissMap).StoreIf" && k != "wrapper.(*ConcurrentSwissMap).Delete" {
+					continue
+				}
+				recv := callee.Signature.Recv()
+				if recv == nil || !strings.HasSuffix(typeName(recv.Type()), typeSuffix) {
+					continue
+				}
+				if !allowed[funcKey(f)] {
+					viol = append(viol, funcKey(f)+" mutates a ConcurrentSwissMap of "+typeSuffix)
+				}
+			}
+		}
+	}
+	return
+}
+
+func set(keys ...string) map[string]bool {
+	m := map[string]bool{}
+	for _, k := range keys {
+		m[k] = true
+	}
+	return m
+}
+
+func merge(a []string, n1 int, b []string, n2 int) ([]string, int) { return append(a, b...), n1 + n2 }
+
+func init() {
+	// Who may write the tracked positions and the dirty set (C01, C04, C05).
+	frameScans["offset-writers"] = func(eng *Engine) ([]string, int) {
+		v, n := storesToField(eng, "stream.stream", "offsets", set("stream.(*stream).Open", "stream.(*stream).Close"))
+		v, n = merge(v, n, nil, 0)
+		v2, n2 := storesToField(eng, "stream.stream", "dirtyOffsets", set("stream.(*stream).Open", "stream.(*stream).Close", "stream.(*stream).UnmarkDirtyOffsets"))
+		v, n = merge(v, n, v2, n2)
+		v3, n3 := storesToField(eng, "stream.stream", "anyDirtyOffset", set("stream.(*stream).Open", "stream.(*stream).UnmarkDirtyOffsets", "stream.(*stream).waitAndForward$1", "stream.(*stream).setOffset"))
+		v, n = merge(v, n, v3, n3)
+		v4, n4 := csmapMutators(eng, "ConcurrentSwissMap_of_uint16_ptr.models.Offset", set("stream.(*stream).setOffset", "stream.(*checkpoint).Load$1", "stream.(*checkpoint).Load$2"))
+		v, n = merge(v, n, v4, n4)
+		v5, n5 := csmapMutators(eng, "ConcurrentSwissMap_of_uint16_bool", set("stream.(*stream).setOffset", "stream.(*checkpoint).Load$1"))
+		v, n = merge(v, n, v5, n5)
+		v6, n6 := storesToField(eng, "stream.stream", "vbIDRange", set("stream.(*stream).Open"))
+		return merge(v, n, v6, n6)
+	}
+	// Offsets, snapshot markers and checkpoint documents are never modified after construction (C06).
+	frameScans["immutable-offsets"] = func(eng *Engine) ([]string, int) {
+		var viol []string
+		n := 0
+		for _, f := range eng.allRepoFuncs() {
+			for _, b := range f.Blocks {
+				for _, in := range b.Instrs {
+					n++
+					st, ok := in.(*ssa.Store)
+					if !ok {
+						continue
+					}
+					fa, ok := st.Addr.(*ssa.FieldAddr)
+					if !ok {
+						continue
+					}
+					root := typeName(fa.X.Type().(*types.Pointer).Elem())
+					switch root {
+					case "models.Offset", "models.SnapshotMarker", "models.CheckpointDocument", "models.CheckpointDocumentCheckpoint", "models.CheckpointDocumentSnapshot":
+						// allowed only as initialisation of an object allocated in the same function
+						if a, isAlloc := fa.X.(*ssa.Alloc); isAlloc && a.Parent() == f {
+							continue
+						}
+						viol = append(viol, funcKey(f)+" writes a field of "+root+" outside its construction")
+					}
+				}
+			}
+		}
+		return viol, n
+	}
+}
